@@ -88,6 +88,14 @@ def make_generate(version):
                         pre.append((key, rng.randrange(0, 1000)))
             isnil = rng.random() < 0.08
             add(rng.choice([fair, rate]), isnil, d, ps, [] if isnil else pre, "random")
+        # Fair is integer arithmetic: the whole uint range is its domain (dividends beyond 2^53, where a float64 detour would round)
+        for _ in range(150 if tier == "quick" else 3000):
+            k = rng.randrange(1, 9)
+            ps = sorted(rng.sample(range(1, rng.choice([10, 100, 2 ** 20]) + 1), k), reverse=True)
+            d = rng.choice([2 ** 53 + rng.randrange(0, 64), rng.randrange(2 ** 53, 2 ** 63), rng.randrange(2 ** 62, 2 ** 64 - 2 ** 20),
+                            (2 ** rng.randrange(54, 64)) - rng.randrange(0, 9), rng.randrange(2 ** 53, 2 ** 64 - 2 ** 20) // k * k + rng.randrange(0, k)])
+            pre = [(q, rng.randrange(0, 1000)) for q in rng.sample(ps, rng.randrange(0, k + 1))] if rng.random() < 0.4 else []
+            add(fair, False, d, ps, pre, "fair-huge-dividend")
         # malformed stream (correspondence only): empty list, duplicates, unsorted
         for _ in range(40 if tier == "quick" else 400):
             kind = rng.randrange(3)
